@@ -11,6 +11,7 @@ import (
 
 	"github.com/itchyny/rassemble-go"
 
+	"github.com/coreruleset/crs-toolchain/v2/internal/verifhook"
 	"github.com/coreruleset/crs-toolchain/v2/regex"
 )
 
@@ -35,6 +36,7 @@ func NewAssemble(ctx *Context) *Assemble {
 func (a *Assemble) ProcessLine(line string) error {
 	match := regex.AssembleInputRegex.FindStringSubmatch(line)
 	if len(match) > 0 {
+		verifhook.Emit("asm.store", "name", match[1])
 		if err := a.store(match[1]); err != nil {
 			logger.Error().Err(err).Msgf("Failed to store input: %s", line)
 			return err
@@ -45,6 +47,7 @@ func (a *Assemble) ProcessLine(line string) error {
 	match = regex.AssembleOutputRegex.FindStringSubmatch(line)
 	if len(match) > 0 {
 		identifier := match[1]
+		verifhook.Emit("asm.load", "name", identifier)
 		if err := a.append(identifier); err != nil {
 			var message string
 			if identifier != "" {
@@ -57,6 +60,7 @@ func (a *Assemble) ProcessLine(line string) error {
 		}
 	} else {
 		a.proc.lines = append(a.proc.lines, line)
+		verifhook.Emit("asm.entry", "n", len(a.proc.lines))
 	}
 	return nil
 }
@@ -114,9 +118,11 @@ func (a *Assemble) append(identifier string) error {
 			// Treat as literal, could be start of a group or a range expresssion.
 			// Those can not be parsed by rassemble-go, since they are not valid
 			// expressions.
+			verifhook.Emit("asm.flush", "lines", 1, "raw", true)
 			a.output.WriteString(a.proc.lines[0])
 			a.proc.lines = []string{}
 		}
+		verifhook.Emit("asm.flush", "lines", len(a.proc.lines), "raw", false)
 		regex, err := a.runAssemble()
 		if err != nil {
 			return err
